@@ -191,6 +191,17 @@ pub fn run(ctx: &Ctx) -> Report {
         let ops = vec![Op::Add { name: "small.txt".into(), size: 20, src: rng.log_text(20) }, Op::Add { name: "var/log/app.log".into(), size: sz as u64, src: rng.log_text(sz) }, Op::Finalize];
         check(&mut rep, &mut model, &cfg, &ops, 1, &mut rng);
     }
+    // alignment cases (see gens::aligned_ops) through throttled destinations and sources
+    for residue in [1usize, 2] {
+        if let Some(ops) = aligned_ops(&mut rng, residue) {
+            for (layers, kind) in [(L_COMP | L_ENC, 2u8), (L_COMP, 3)] {
+                let mut cfg = Cfg::make(&mut rng, layers);
+                cfg.level = 5;
+                rep.count("aligned");
+                if !check(&mut rep, &mut model, &cfg, &ops, kind, &mut rng) && rep.full() { return rep; }
+            }
+        }
+    }
     let n = if CONSTS.scaled { ctx.budget(1200, 20000) } else { ctx.budget(90, 1200) };
     for i in 0..n {
         let cfg = Cfg::make(&mut rng, (i % 4) as u8);
